@@ -5,11 +5,11 @@ TARGETS = {
 PROP = {
     "subchecks": [
         {"target": "c10_pipe_tsan", "sub": "pipe",
-         "quick": {"cases": 1500, "max_size": 60, "workers": 8, "case_alarm": 20},
-         "thorough": {"cases": 25000, "max_size": 150, "workers": 10, "case_alarm": 20}},
+         "quick": {"cases": 1500, "max_size": 60, "workers": 8, "case_alarm": 60},
+         "thorough": {"cases": 25000, "max_size": 150, "workers": 10, "case_alarm": 60}},
         {"target": "c10_pipe_asan", "sub": "pipe",
-         "quick": {"cases": 1500, "max_size": 60, "workers": 4, "case_alarm": 20},
-         "thorough": {"cases": 25000, "max_size": 150, "workers": 6, "case_alarm": 20}},
+         "quick": {"cases": 1500, "max_size": 60, "workers": 4, "case_alarm": 60},
+         "thorough": {"cases": 25000, "max_size": 150, "workers": 6, "case_alarm": 60}},
     ],
     "assumptions": ["all producers are joined before cleanup() (an append racing with cleanup is API misuse)",
                     "the callback is installed after initialize() and before the first append, as all in-tree callers do",
